@@ -18,13 +18,15 @@ from props.c09 import py_call
 PROP = "C10"
 
 
-def resp_case(ctx, R, LP, rng, n):
+def resp_case(ctx, R, LP, rng, n, given=None):
     d = ctx.driver()
     ph, pat = gens.phases(rng, n)
     so = str(rng.choice(["Wx", "Wz"]))
     meas = rng.choice(["x", "z", None])
     meas = None if meas is None else str(meas)
     avals = [float(rng.uniform(-1, 1)) for _ in range(3 if n <= 64 else 1)] + [float(rng.choice([1.0, -1.0, 0.0, 0.5, -0.999999999]))]
+    if given is not None:
+        ph, pat, so, meas, avals = given
     py = py_call(lambda: R.ComputeQSPResponse(np.array(avals), np.array(ph), signal_operator=so, measurement=meas)["pdat"])
     ctx.count("model:%s/%s" % (so, meas))
     ctx.count("phases:" + pat)
@@ -91,6 +93,41 @@ def refuse_case(ctx, R, rng):
                           {"signal_operator": so, "measurement": me})
 
 
+def float_definition(so, meas, ph, a):
+    """the documented product in binary64 (same operators as Model/Response.lean): only used to decide which inputs are
+    handed to the exact model"""
+    b = math.sqrt(max(0.0, 1 - a * a))
+    H = np.array([[1, 1], [1, -1]], dtype=complex) / math.sqrt(2)
+    W = np.array([[a, 1j * b], [1j * b, a]], dtype=complex)
+    Ps = [np.array([[np.exp(1j * p), 0], [0, np.exp(-1j * p)]], dtype=complex) for p in ph]
+    if so == "Wz":
+        W = H @ W @ H
+        Ps = [H @ P @ H for P in Ps]
+    U = Ps[0]
+    for P in Ps[1:]:
+        U = U @ W @ P
+    m = meas or ("x" if so == "Wx" else "z")
+    return U[0, 0] if m == "z" else 0.5 * (U[0, 0] + U[0, 1] + U[1, 0] + U[1, 1])
+
+
+def sweep_all_lengths(ctx, R, LP, rng, tier):
+    """every length 1..200 (the property's range), every model: screened against the binary64 product of the definition;
+    a length where they differ by more than 1e-9 goes through the exact comparison of resp_case (which decides)"""
+    for n in range(1, 201):
+        ph, pat = gens.phases(rng, n)
+        so = str(rng.choice(["Wx", "Wz"]))
+        meas = rng.choice(["x", "z", None])
+        meas = None if meas is None else str(meas)
+        avals = [float(rng.uniform(-1, 1)), float(rng.choice([1.0, -1.0, 0.0, 1 - 1e-7, -1 + 3e-6, 0.999995, float(rng.uniform(-1, 1))]))]
+        py = py_call(lambda: R.ComputeQSPResponse(np.array(avals), np.array(ph), signal_operator=so, measurement=meas)["pdat"])
+        ctx.count("all-lengths-sweep")
+        ctx.case(["sweep", so, meas, ph, avals], True, {"so": so, "meas": meas, "n": n, "kind": "all-lengths sweep"})
+        bad = py[0] != "ok" or len(py[1]) != len(avals) or any(abs(complex(v) - float_definition(so, meas, ph, a)) > 1e-9 for v, a in zip(py[1], avals))
+        if bad:
+            ctx.count("all-lengths-sweep:escalated")
+            resp_case(ctx, R, LP, rng, n, given=(ph, pat, so, meas, avals))
+
+
 def run(tier, seed):
     ctx = core.Ctx(PROP, tier, seed, "proof", ["C10"])
     ctx.axioms = core.audit(ctx.modules)
@@ -99,6 +136,7 @@ def run(tier, seed):
     lengths = [1, 2, 3, 4, 5, 7, 10, 16, 25, 40, 64] * (8 if tier == "quick" else 60) + [100, 150, 200] * (1 if tier == "quick" else 12)
     for n in lengths:
         resp_case(ctx, R, LP, ctx.rng, n)
+    sweep_all_lengths(ctx, R, LP, ctx.rng, tier)
     for _ in range(10 if tier == "quick" else 50):
         refuse_case(ctx, R, ctx.rng)
     ctx.assumptions = ["binary64 responses compared with the exact product within 1e-12*(n+1) plus the proven enclosure error",
